@@ -117,6 +117,10 @@ def run(chk, repo: Repo):
     chk.rule("C06-R2", "right-hand side blocks are whitened with the same chain/scalar as the operator blocks; UGLA recomputes all quantities derived from the Laplace factor each step", floor=4)
     chk.rule("C06-R3", "y = b_tild + standard normal of len(b_tild); solver on (M, y, current state); new state = first solver result", floor=4)
     chk.rule("C06-R4", "sqrtprecTimesMean = sqrtprec @ mean of the same object", floor=3)
+    chk.rule("C06-R5", "per-block operator closures do not capture the block variable late (closures built in a loop / comprehension over the "
+                       "likelihood blocks must bind the block by value)", floor=8)
+    from ..latebind import latebind_rule
+    latebind_rule(chk, repo, "C06-R5", ("cuqi/experimental/mcmc/", "cuqi/sampler/"))
     for mod, cls, fname, kind in SITES:
         ci = repo.cls(f"{mod}:{cls}")
         fn = repo.method(ci, fname)[1]
